@@ -163,6 +163,7 @@ def gen_value(ty, rng, size=4, record_factory=None):
 
 
 def resolve(qualname):
+    qualname = qualname.split('#')[0]      # 'pkg.mod.func#view': a second contract of the same function
     parts = qualname.split('.')
     for cut in range(len(parts), 0, -1):
         try:
